@@ -69,6 +69,19 @@ CLAIMED = {
                      "stores with successor-index polynomial check",
         "design_ref": "DESIGN.md section 3, C06",
     },
+    "C07": {
+        "text": "Decides the code-shape premises D1-D6 of C07: both split routines tile the parent (complementary conditionals with the "
+                "same test, one midpoint of the parent's bounds per dimension, 2 resp. 2**dim children, counter + 1, inherited "
+                "coarsening); extend keeps the box and never produces a negative coarsening; the field invariant coarseningValue >= 0 "
+                "holds at every store in the package with constructor arguments followed to all call sites and the update increment "
+                "followed to its sources; start/end are written only by the constructor; the collision bookkeeping uses one "
+                "(coarsened, original) pair and is cleared when the coarsening of a live area changes; evaluation points are removed "
+                "from the candidate set once a child took them. Disjointness/union as geometry and coefficient sums per area are NOT "
+                "decided.",
+        "technique": "complementary-conditional and shared-term checks, field-invariant analysis over all stores with "
+                     "inter-procedural argument following, init-only ownership, paired-call and set-difference idiom checks",
+        "design_ref": "DESIGN.md section 3, C07",
+    },
     "C05": {
         "text": "Decides structural clauses D1-D5 of C05: every accumulator (area, container, operation) receives the same "
                 "coefficient-weighted term in all four evaluation routines; removals subtract value and evaluations of the popped position "
